@@ -443,6 +443,10 @@ def _corrupt(pred, run, w, limit):
             return None
         # the same worker twice in a row although every other worker is marked available
         st["dlog"] = [[n + 1, 0, False, 1, False, 0, False, [True] * w] for n in range(2)]
+    elif pred == "T_C04_NoImmediateRepeat":
+        if w < 2:
+            return None
+        st["dlog"] = [[n + 1, 0, False, 1, False, 0, False, [True] * w, True, w, True] for n in range(2)]
     elif pred == "T_C05_PausedNoDispatch":
         run[k]["pausedDispatch"] = True
     elif pred == "T_C05_UdsReachable":
